@@ -628,6 +628,18 @@ func c18MakeTask(t *tape.Tape, p *c18Pool) c18Task {
 					prev = cur
 				}
 			}
+			// what a getter returns belongs to the caller: a back end that uploads
+			// the stops converts them in place (its own copies, by the getters'
+			// contract)
+			offs, cols := g.StopOffsets(), g.StopColors()
+			for i := range offs {
+				hh = fnvAdd(hh, math.Float64bits(offs[i]))
+				offs[i] *= 255
+			}
+			for i := range cols {
+				hh = fnvAdd(hh, uint64(cols[i].R)|uint64(cols[i].G)<<8|uint64(cols[i].B)<<16|uint64(cols[i].A)<<24)
+				cols[i].A = 0xff
+			}
 			img := image.NewRGBA(image.Rect(0, 0, w, h))
 			vz := vec.NewRasterizer(img)
 			vz.Reset(w, h)
